@@ -26,6 +26,12 @@ def main():
     importlib.import_module(pkg + ".b")
     if has_plugin:
         importlib.import_module(pkg + ".p")
+    if len(sys.argv) > 7 and sys.argv[7] == "late":
+        # what the registration of one more memento function, in a module imported after these, does to the process:
+        # everything is looked at again before the first query
+        from twosigma.memento.memento import MementoFunction
+
+        MementoFunction.increment_global_fn_generation()
     out = {}
     for mod, name in first:
         fn = getattr(sys.modules[{"a": pkg + ".a", "b": pkg + ".b", "i": pkg, "e": pkg + "_ext.lib"}[mod]], name)
